@@ -45,7 +45,7 @@ CHECKS.update({
  "C11": ("exhaustive enumeration of small programs (dependency graphs), of rules (regularity) and of task/user-guide shapes (enforcement) against reference predicates",
          "is_tight() and has_private_recursion are compared with reference graph algorithms on every 1-2 rule program (and 3-rule / long-cycle families) over an abstract alphabet with all private sets; is_regular() with the manual's definition on C01's rules; for 17x(17+8)x12 task shapes x bypass flag, decompose() may return problems only if all listed conditions hold.",
          "trusted: reference predicates in engine/src/refsem.rs and c11.rs, written from the manual's definitions; enforcement is one-directional as the property is worded", "4 C11"),
- "C13": ("exhaustive enumeration of proof outlines (<= 3 entries over 25 entry shapes x 3 directions) x base tasks x directions x decompositions; structural oracle on every emitted problem + truth-table check of induction obligations",
+ "C13": ("exhaustive enumeration of proof outlines (<= 3 entries over 27 entry shapes x 3 directions) x base tasks x directions x decompositions; structural oracle on every emitted problem + truth-table check of induction obligations",
          "For every outline the emitted problem sequence is checked: axioms of each outline problem come only from the direction's premises (taken from the run without outline), accepted definitions and lemmas established earlier; final problems follow; invalid definitions must be refused; base/step obligations equal the environment-update semantics of F[n/N] and N >= n & F -> F[N+1/N] on all interpretations.",
          "trusted: the reference validity predicate for definitions, name-based identification of formulas (all inputs are named), grounder for the induction check", "4 C13"),
  "C14": ("bounded-exhaustive enumeration of syntax trees (via fully parenthesised text) and of token strings; parse-print-parse comparison",
